@@ -482,37 +482,31 @@ void observe_helpers(P<N> const &mn, P<N> const &sp, std::vector<P<N>> const &wa
   fg::min<ST, N> const lmin{to_pos<ST, N>(mn)};
   fg::sup<ST, N> const lsup{to_pos<ST, N>(sp)};
   VF_COUNT("observed/helpers/calls");
-  struct lazy_ctx
-  {
-    P<N> const &mn, &sp;
-    operator std::string() const { return "<" + inst<ST, N>() + "> min=" + show(mn) + " sup=" + show(sp); }
-  } const lctx{mn, sp};
-#define ctx std::string(lctx)
+  auto const ctx = [&] { return "<" + inst<ST, N>() + "> min=" + show(mn) + " sup=" + show(sp); };
   if (fg::min_less_sup(lmin, lsup) != !want.empty())
-    surprise("min_less_sup" + ctx + " disagrees with component-wise min < sup");
+    surprise("min_less_sup" + ctx() + " disagrees with component-wise min < sup");
   if constexpr (sizeof(ST) >= sizeof(int))
   {
     if (static_cast<unsigned long long>(fg::range_size(lmin, lsup)) != want.size())
-      surprise("range_size" + ctx + " differs from the number of positions in the box");
+      surprise("range_size" + ctx() + " differs from the number of positions in the box");
 
     P<N> wd;
     for (std::size_t i = 0; i < N; ++i)
       wd[i] = want.empty() ? 0 : sp[i] - mn[i];
     if (from_vec<N>(fg::range_dim(lmin, lsup)) != wd)
-      surprise("range_dim" + ctx + " differs from sup-min (or null for an empty range)");
+      surprise("range_dim" + ctx() + " differs from sup-min (or null for an empty range)");
   }
   P<N> const endp = from_vec<N>(fg::end_position(lmin, lsup));
   if (std::find(want.begin(), want.end(), endp) != want.end())
-    surprise("end_position" + ctx + " is a position of the range itself");
+    surprise("end_position" + ctx() + " is a position of the range itself");
   for (std::size_t i = 0; i + 1 < want.size(); ++i)
     if (from_vec<N>(fg::next_position(to_pos<ST, N>(want[i]), lmin, lsup)) != want[i + 1])
     {
-      surprise("next_position" + ctx + " after " + show(want[i]) + " is not the x-fastest successor");
+      surprise("next_position" + ctx() + " after " + show(want[i]) + " is not the x-fastest successor");
       break;
     }
   if (!want.empty() && from_vec<N>(fg::next_position(to_pos<ST, N>(want.back()), lmin, lsup)) != endp)
-    surprise("next_position" + ctx + " after the last position is not end_position");
-#undef ctx
+    surprise("next_position" + ctx() + " after the last position is not end_position");
 }
 
 template <class ST, std::size_t N>
@@ -1164,7 +1158,7 @@ void clamped_range_entry()
       if (!my_item())
         continue;
       vf::rng r(vf::seed_for(e, sidx));
-      std::size_t const n = 3000;
+      std::size_t const n = 20000;
       if (!vf::begin_case("size=%s %zu seeded signed (min,sup) pairs from [-1,%lld]^%zu rng=seed_for(entry,%llu)", show(s).c_str(), n, E() + 1, N, static_cast<unsigned long long>(sidx)))
         continue;
       vf::sample_case(1);
